@@ -221,7 +221,9 @@ namespace {
         const std::size_t S = cf.size, ovh = cf.overhead;
         // the length field of a PDU is 8 bit wide. F-18b: push_front() computes the in-memory length in 8 bits, PDUs with a
         // memory size above 255 are lost; while that is an open finding the generator stays below
-        const std::size_t max_alloc = verif::opt_has( "exclude", "F-18b" ) ? 255 : ovh + 255;
+        const bool        exclude_f18b = verif::opt_has( "exclude", "F-18b" );
+        const std::size_t max_alloc    = exclude_f18b ? 255 : ovh + 255;
+        bool              clipped      = false;  // a request was reduced because of the exclusion
 
         std::deque< live_pdu > q;
         std::size_t            f = 0;  // offset behind the newest PDU (== offset of the oldest if the ring is empty)
@@ -264,6 +266,8 @@ namespace {
             case A_GAP: n = ( e > f ? static_cast< long >( e - f ) : static_cast< long >( e ) ) + ( x % 5 ) - 2; break;
             }
             n = std::max< long >( n, static_cast< long >( ovh ) );
+            if ( exclude_f18b && n > static_cast< long >( max_alloc ) && n <= static_cast< long >( ovh + 255 ) )
+                clipped = true;
             n = std::min< long >( n, static_cast< long >( max_alloc ) );
             const std::size_t sz = static_cast< std::size_t >( n );
 
@@ -384,6 +388,7 @@ namespace {
         }
         check_next_end( c.ops.size() );
 
+        rep.excluded   = clipped;
         rep.nontrivial = wraps != 0;  // a push below the previous PDU while older PDUs are stored: >= 2 live PDUs across the wrap
         rep.label( verif::cat( "layout=", cf.layout ) );
         rep.label( S <= 16 ? "size<=16" : S <= 34 ? "size=29..34" : S <= 100 ? "size=61..100" : "size>=251" );
